@@ -354,7 +354,8 @@ StepOther(s, e) ==
                                          !.smmc = Upd(@, e.arn, [nm \in {e.mc[j].state : j \in 1..Len(e.mc)} |-> McOf(e.mc, nm)])], <<>>)
       [] e.k = "storeerr" -> R(s, FX("ENV", "StoreReadable", "", e.err))
       [] e.k = "escaped"  -> R(s, FX("C18", "NoEscapedException", "", e.err))
-      [] e.k = "histcut"  -> R(s, FX("C09", "HistoryNeverShrinks", e.exec, ""))
+      (* the stored history got shorter: a violation of C09; the observation restarts from the first event *)
+      [] e.k = "histcut"  -> R(SetEx(s, e.exec, [Ex(s, e.exec) EXCEPT !.hist = <<>>]), FX("C09", "HistoryNeverShrinks", e.exec, ""))
       [] e.k = "histapi"  ->
            (* GetExecutionHistory through the API: the stored list, numbered 1..n, and exactly its reverse *)
            LET n == Len(e.fwd)
